@@ -14,11 +14,31 @@ package otr3
 // ---------------------------------------------------------------------------
 
 
+//@ func (otrV3).fragmentPrefix
+//@   pure
+//@   ensures [C14.prefix.v3] fresh(result) && cap(result) == len(result) && len(result) >= 35
+//@   ensures [C14.prefix.v3.len] (0 <= n && n < 99999 && 0 <= total && total < 100000) ==> len(result) == 35
+//@ func (otrV2).fragmentPrefix
+//@   pure
+//@   ensures [C14.prefix.v2] fresh(result) && cap(result) == len(result) && len(result) >= 17
+//@   ensures [C14.prefix.v2.len] (0 <= n && n < 99999 && 0 <= total && total < 100000) ==> len(result) == 17
+
+//@ define fragP(c) = ite(typeis(c.version, otrV3), 35, 17)
+//@ define fragRoom(c, fraglen) = int(fraglen) - fragP(c) - 1
+//@ define fragBig(data, fraglen) = len(data) > int(fraglen) && fraglen != 0
+
 //@ func (*Conversation).fragment
 //@   requires c != nil && c.version != nil
 //@   pure
-//@   ensures [C14.frag.small] (len(data) <= int(fraglen) || fraglen == 0) ==> (len(result) == 1 && result[0] === data)
-//@   ensures [C14.frag.nonempty] len(result) >= 1
+//@   ensures [C14.frag.small] !fragBig(data, fraglen) ==> (len(result) == 1 && result[0] === data)
+//@   ensures [C14.frag.noroom] (fragBig(data, fraglen) && fragRoom(c, fraglen) <= 0) ==> (len(result) == 1 && result[0] === data)
+//@   ensures [C14.frag.count] (fragBig(data, fraglen) && fragRoom(c, fraglen) > 0) ==> len(result) == len(data) / fragRoom(c, fraglen) + 1
+//@   ensures [C14.frag.size] (fragBig(data, fraglen) && fragRoom(c, fraglen) > 0 && len(data) / fragRoom(c, fraglen) + 1 < 100000) ==> (forall i in 0..len(result) :: len(result[i]) <= int(fraglen) && len(result[i]) >= fragP(c) + 1)
+//@   ensures [C14.frag.sep] (fragBig(data, fraglen) && fragRoom(c, fraglen) > 0) ==> (forall i in 0..len(result) :: len(result[i]) >= 1 && result[i][len(result[i]) - 1] == 44)
+//@ loop (*Conversation).fragment #0
+//@   invariant len(ret) == numFragments && nonglobal(ret) && numFragments == len(data) / fragRoom(c, fraglen) + 1 && realFraglen == fragRoom(c, fraglen) && realFraglen > 0 && l == len(data) && fragBig(data, fraglen)
+//@   invariant numFragments < 100000 ==> (forall k in 0..i :: len(ret[k]) <= int(fraglen) && len(ret[k]) >= fragP(c) + 1)
+//@   invariant forall k in 0..i :: len(ret[k]) >= 1 && ret[k][len(ret[k]) - 1] == 44
 
 // ---------------------------------------------------------------------------
 // key_management.go (C02, C04, C05, C06, C08, C09, C19)
@@ -181,7 +201,7 @@ package otr3
 //@   requires c != nil
 //@   modifies c.ourInstanceTag
 //@   ensures [C15.header.fields,C10.header.v3] result1 == nil ==> (len(result0) == 11 && be16(result0, 0) == 3 && result0[2] == msgType && be32(result0, 3) == c.ourInstanceTag && be32(result0, 7) == c.theirInstanceTag && fresh(result0))
-//@   ensures [C15.own.valid.header] result1 == nil ==> c.ourInstanceTag >= 256
+//@   ensures [C15.own.valid.header] (result1 == nil && (old(c.ourInstanceTag) == 0 || old(c.ourInstanceTag) >= 256)) ==> c.ourInstanceTag >= 256
 //@   ensures old(c.ourInstanceTag) != 0 ==> c.ourInstanceTag == old(c.ourInstanceTag)
 
 //@ func (otrV2).messageHeader
@@ -197,6 +217,79 @@ package otr3
 //@ func (*Conversation).generateInstanceTag
 //@   requires c != nil
 //@   modifies c.ourInstanceTag
-//@   ensures [C15.own.valid] result == nil ==> c.ourInstanceTag >= 256
+//@   ensures [C15.own.valid] (result == nil && (old(c.ourInstanceTag) == 0 || old(c.ourInstanceTag) >= 256)) ==> c.ourInstanceTag >= 256
 //@   ensures [C15.own.sticky] old(c.ourInstanceTag) != 0 ==> (c.ourInstanceTag == old(c.ourInstanceTag) && result == nil)
 //@   ensures result != nil ==> c.ourInstanceTag == old(c.ourInstanceTag)
+
+//@ func (*Conversation).InitializeInstanceTag
+//@   requires c != nil
+//@   modifies c.ourInstanceTag
+//@   ensures [C15.init.valid] result == 0 || result >= 256
+//@   ensures [C15.init.kept] result == c.ourInstanceTag || result == 0
+
+//@ func ExtractInstanceTags
+//@   pure
+//@   ensures [C15.extract.v3msg] (ok && len(m) > 5 && m[4] == 58) ==> (theirs == dec32(bytes(m[5:len(m)-1]), 3) && ours == dec32(bytes(m[5:len(m)-1]), 7))
+//@   ensures [C15.extract.other] (len(m) < 5 || (m[4] != 58 && m[4] != 124)) ==> !ok
+
+// ---------------------------------------------------------------------------
+// fragmentation.go, receive side (C14)
+// ---------------------------------------------------------------------------
+//@ ghostfn atoival(Str) BV64
+
+//@ func bytesToUint16
+//@   pure
+//@   ensures [C14.parse.range] result1 == nil ==> uint64(result0) == atoival(str(d))
+
+//@ func parseFragment
+//@   pure
+//@   ensures ok ==> within(resultData, data)
+//@   ensures !ok ==> true
+
+//@ func (*Conversation).receiveFragment
+//@   requires c != nil && keysNonNil(c)
+//@   modifies elems(beforeCtx.frag), c.version, c.ourCurrentKey, c.theirInstanceTag, msglog(c), c.injections.messages, elems(c.injections.messages)
+//@   ensures [C14.recv.reject.noop,C06.frag.reject,C15.ignore.frag] result1 != nil ==> result0 == beforeCtx
+//@   ensures [C14.recv.table] result0 == beforeCtx || (result0.currentIndex == 1 && result0.currentLen >= 1) || (result0.currentIndex == beforeCtx.currentIndex + 1 && result0.currentLen == beforeCtx.currentLen && result0.currentIndex <= result0.currentLen && len(result0.frag) >= len(beforeCtx.frag)) || (result0.currentIndex == 0 && result0.currentLen == 0 && result0.frag === nil)
+//@   ensures [C14.recv.inv] beforeCtx.currentIndex <= beforeCtx.currentLen ==> result0.currentIndex <= result0.currentLen
+
+//@ func fragmentsFinished
+//@   pure
+//@   ensures [C14.finished.def] result <==> (fctx.currentIndex > 0 && fctx.currentIndex == fctx.currentLen)
+
+// ---------------------------------------------------------------------------
+// version.go, policy.go, query.go, whitespace.go (C16)
+// ---------------------------------------------------------------------------
+
+//@ define hasPol(c, p) = (int(c.Policies) & int(p)) == int(p)
+
+//@ define keysNonNil(c) = forall i in 0..len(c.ourKeys) :: c.ourKeys[i] != nil
+
+//@ func (*Conversation).setKeyMatchingVersion
+//@   requires c != nil && c.version != nil && keysNonNil(c)
+//@   modifies c.ourCurrentKey
+
+//@ func (*Conversation).commitToVersionFrom
+//@   requires c != nil && keysNonNil(c)
+//@   modifies c.version, c.ourCurrentKey
+//@   ensures [C16.commit.sticky] old(c.version) != nil ==> (result == nil && c.version == old(c.version) && c.ourCurrentKey == old(c.ourCurrentKey))
+//@   ensures [C16.commit.v3] (old(c.version) == nil && hasPol(c, allowV3) && (versions & 8) != 0) ==> typeis(c.version, otrV3)
+//@   ensures [C16.commit.v2] (old(c.version) == nil && !(hasPol(c, allowV3) && (versions & 8) != 0) && hasPol(c, allowV2) && (versions & 4) != 0) ==> typeis(c.version, otrV2)
+//@   ensures [C16.commit.none] (old(c.version) == nil && !(hasPol(c, allowV3) && (versions & 8) != 0) && !(hasPol(c, allowV2) && (versions & 4) != 0)) ==> (result == errUnsupportedOTRVersion && c.version == nil && c.ourCurrentKey == old(c.ourCurrentKey))
+//@   ensures [C16.commit.policy] (old(c.version) == nil && c.version != nil) ==> ((typeis(c.version, otrV3) && hasPol(c, allowV3)) || (typeis(c.version, otrV2) && hasPol(c, allowV2)))
+//@   ensures result == nil ==> c.version != nil
+
+//@ func (*Conversation).checkVersion
+//@   requires c != nil && keysNonNil(c)
+//@   modifies c.version, c.ourCurrentKey
+//@   ensures [C16.check.version] result == nil ==> (len(message) >= 2 && c.version != nil && ((typeis(c.version, otrV3) && be16(message, 0) == 3) || (typeis(c.version, otrV2) && be16(message, 0) == 2)))
+//@   ensures [C16.check.sticky,C06.version.frame] old(c.version) != nil ==> (c.version == old(c.version) && c.ourCurrentKey == old(c.ourCurrentKey))
+//@   ensures [C16.check.policy] (old(c.version) == nil && c.version != nil) ==> ((typeis(c.version, otrV3) && hasPol(c, allowV3)) || (typeis(c.version, otrV2) && hasPol(c, allowV2)))
+//@   ensures [C16.check.short] len(message) < 2 ==> (result == errInvalidOTRMessage && c.version == old(c.version))
+
+//@ func newOtrVersion
+//@   pure
+//@   ensures [C16.new.v3] (v == 3 && (int(p) & int(allowV3)) == int(allowV3)) ==> (err == nil && typeis(version, otrV3))
+//@   ensures [C16.new.v2] (v == 2 && (int(p) & int(allowV2)) == int(allowV2)) ==> (err == nil && typeis(version, otrV2))
+//@   ensures [C16.new.policy] err == nil ==> ((typeis(version, otrV3) && v == 3 && (int(p) & int(allowV3)) == int(allowV3)) || (typeis(version, otrV2) && v == 2 && (int(p) & int(allowV2)) == int(allowV2)))
+//@   ensures err != nil ==> version == nil
